@@ -1235,6 +1235,28 @@ fn shared_store_cases(prop: &str, rng: &mut Rng, quick: bool, st: &mut Stats, c:
             st.bump("coordinates_next_to_the_ties_around_zero");
         }
     }
+    // archives without a codec whose root directory bytes begin like a gzip member (1f 8b 08: 31 entries, first id 1035)
+    // or a zstd frame (28 b5 2f fd: 40 entries, first id 6069, second 6069 + 253): nothing may sniff the content
+    for (k, (n, first, second_gap)) in [(31u64, 1035u64, 1u64), (40, 6069, 253)].iter().enumerate() {
+        let mut ops: Vec<String> = vec!["c:none".into()];
+        let mut id = *first;
+        for i in 0..*n {
+            ops.push(format!("a:{id:x}:{:02x}{:02x}", i + 1, 0x40 + i));
+            id += if i == 0 { *second_gap } else { 1 };
+        }
+        let mut rev = ops.clone();
+        rev[1..].reverse();
+        push(c, k, ops.join(";"), Some(rev.join(";")));
+        st.bump("root_directory_bytes_beginning_like_a_compressed_stream");
+    }
+    // metadata whose values are JSON texts themselves (keys that other formats give a meaning: "json", "tilejson")
+    if prop == "C01" || prop == "C16" {
+        for (k, meta) in [r#"{"json":"{\"vector_layers\":[],\"name\":\"inner\"}","name":"outer"}"#, r#"{"JSON":"{}","json":"[1,2]","tilejson":"{\"a\":1}"}"#, r#"{"json":{"json":"{\"x\":true}"}}"#].iter().enumerate() {
+            let ops = format!("m:{};a:3:0102;a:9:0304", hex_bytes(meta.as_bytes()));
+            push(c, k, ops, Some(format!("a:9:0304;a:3:0102;m:{}", hex_bytes(meta.as_bytes()))));
+            st.bump("metadata_holding_json_texts");
+        }
+    }
     // equal contents whose ids are exactly 2^32 + run apart
     for (k, (dist, run)) in [(1u64 << 32, 3u64), (1 << 32, 1), (2 << 32, 2)].iter().enumerate() {
         let ca = "0a0b0c0d0e";
@@ -1646,6 +1668,24 @@ pub fn gen(prop: &str, rng: &mut Rng, quick: bool, st: &mut Stats) -> Option<Vec
                 }
             }
             if prop == "C10" {
+                // ids 4..=8, every assignment of {reader-backed X, reader-backed Y, in-memory A, in-memory B, absent} with all
+                // contents of one length: runs must form exactly between equal neighbours, whatever their origin
+                let cont = ["58585858", "59595959", "41414141", "42424242"];
+                for code in 0..5u32.pow(5) {
+                    let pick: Vec<u32> = (0..5).map(|i| code / 5u32.pow(i) % 5).collect();
+                    if pick.iter().filter(|p| **p < 4).count() < 3 {
+                        continue;
+                    }
+                    let mode = if code % 2 == 0 { "sync" } else { "async" };
+                    let m = &mode[..1];
+                    let backed: Vec<String> = pick.iter().enumerate().filter(|(_, p)| **p < 2).map(|(i, p)| format!("a:{:x}:{}", 4 + i, cont[*p as usize])).collect();
+                    let mem: Vec<String> = pick.iter().enumerate().filter(|(_, p)| **p == 2 || **p == 3).map(|(i, p)| format!("a:{:x}:{}", 4 + i, cont[*p as usize])).collect();
+                    if backed.is_empty() || mem.is_empty() {
+                        continue;
+                    }
+                    c.push(format!("chk_dedup {mode} c:none;{};s:{m}:{m};{}", backed.join(";"), mem.join(";")));
+                }
+                st.bump("equal_length_neighbours_of_mixed_origin_exhaustive");
                 // histories that move between threads: equal contents added on different threads, an opened archive
                 // edited and saved on another thread
                 for (k, mode) in ["sync", "async", "sync", "async"].iter().enumerate() {
@@ -1687,6 +1727,17 @@ pub fn gen(prop: &str, rng: &mut Rng, quick: bool, st: &mut Stats) -> Option<Vec
                     let ops = seeded_spill_ops(rng.next(), *n, Compression::None);
                     c.push(format!("chk_hist_map {mode} {ops};s:{m}:{m}"));
                     st.bump("histories_with_leaf_directories");
+                }
+            }
+            // very regular archives under zstd / brotli (directories that shrink to a fraction of a byte per entry)
+            if prop == "C04" {
+                for (k, comp) in [Compression::ZStd, Compression::Brotli].iter().enumerate() {
+                    let mode = if k % 2 == 0 { "sync" } else { "async" };
+                    let m = &mode[..1];
+                    // (written once here; the history starts by opening it)
+                    let bytes = crate::p_io::write_plain(mode, &regular_ops(20_000, *comp)).expect("write");
+                    c.push(format!("chk_hist_map {mode} o:{m}:u_u:{};l;n;g:64;g:4e83;r:65;a:5:0102;s:{m}:{m};l;g:66", hex_bytes(&bytes)));
+                    st.bump("histories_very_regular_archives");
                 }
             }
             // histories that start from a range-filtered open of an archive with leaf directories, the range touching
